@@ -39,6 +39,8 @@ type Conn struct {
 	uuid     uuid.UUID
 	// hasPassword is true once a password was presented, even an empty one.
 	hasPassword bool
+	// closeMutex guards isClosed: Stop and the connection goroutine may close concurrently.
+	closeMutex sync.Mutex
 }
 
 func newConnWith(conn net.Conn, tlsState *tls.ConnectionState) *Conn {
@@ -59,6 +61,8 @@ func newConnWith(conn net.Conn, tlsState *tls.ConnectionState) *Conn {
 
 // Close closes the connection.
 func (conn *Conn) Close() error {
+	conn.closeMutex.Lock()
+	defer conn.closeMutex.Unlock()
 	if conn.isClosed {
 		return nil
 	}
